@@ -371,8 +371,17 @@ def main():
     os.makedirs(gen, exist_ok=True)
     mapping, all_redirects, baseline_ok, files = {}, [], True, []
     try:
+        # effective sources: a detection demo may replace a repo file through VERIF_EXTRA_OVERLAY; mkoverlay.py
+        # passes that mapping in VERIF_SRC_OVERRIDES so that the MUTANT is what gets instrumented
+        overrides = {}
+        if os.environ.get("VERIF_SRC_OVERRIDES"):
+            overrides = json.load(open(os.environ["VERIF_SRC_OVERRIDES"]))
         for t in TARGETS:
-            path, inst, orig, redirects = instrument(repo, t)
+            src_override = overrides.get(os.path.join(repo, t["src"]))
+            path, inst, orig, redirects = instrument(repo, t, source=src_override)
+            if src_override:
+                import hashlib
+                t = dict(t, tag="%s.x%s" % (t["tag"], hashlib.sha256(inst.encode()).hexdigest()[:12]))
             files.append((path, t, inst, orig))
             all_redirects += ["%s:%s" % (t["src"], r) for r in redirects]
             if redirects != sorted(t["baseline"]):
@@ -386,7 +395,7 @@ def main():
         write_if_changed(a, inst)
         write_if_changed(b, orig)
         mapping[path] = a
-        mapping[os.path.join(os.path.dirname(path), "zz_verif_c04_orig_%s.go" % t["tag"])] = b
+        mapping[os.path.join(os.path.dirname(path), "zz_verif_c04_orig_%s.go" % t["tag"].split(".x")[0])] = b
     lst = "".join("\t%s,\n" % json.dumps(r) for r in all_redirects)
     red = ("//go:build verif\n\npackage common\n\n"
            "// Code generated by /verif/tools/gen_c04_vfs.py from the current repo files; DO NOT EDIT.\n\n"
